@@ -37,6 +37,20 @@ CHECKS = {
    note=("Estimates are abstracted to ranks (the solver's own comparisons kept exact; the recomputed estimate of the returned "
          "model identified with the smallest estimate within 1e-9 relative).  Semi-stratified 'zero' draws are unconfirmed by "
          "definition.  Trusted base: recording wrappers and numpy re-evaluation in harness/c13.py, loss handles (C12), TLC.")),
+ "C18": dict(engine="Presentation", design="3/C18",
+   text=("Presentation.tla: a problem (algorithm, data denotation, start, options) and its presentations (holder, printing "
+         "interval, seed identity, positive scale, mode relabelling); Run events carry the distance of the result - after "
+         "Transform undid scale and relabelling - to the base run, and the spec demands equal model, fit / objective and "
+         "iteration count, naming the coordinate on which the result depends.  TLC checks the Transform laws on integer Kruskal "
+         "and Tucker models (relabelling / scaling a model = relabelling / scaling its denotation; the relabelled mode order) "
+         "and enumerates, per algorithm, every admissible presentation differing from the base in one coordinate; every "
+         "presentation is run on the real cp_als, cp_apr (mu, pdnr, pqnr), hosvd, tucker_als and gcp_opt + L-BFGS-B with given "
+         "and random starts, and the recorded traces are validated by TLC."),
+   technique="TLA+ spec Presentation; TLC law checking and enumeration of presentations; TLC trace validation of recorded run pairs",
+   note=("Open known finding: pqnr raises on the dense presentation of data with an all-zero slice (same defect as C11's).  "
+         "'Up to rounding' = 1e-6 relative after a fixed small number of iterations.  Scale applies to cp_als / hosvd / "
+         "tucker_als, relabelling to the algorithms with a mode-order option.  Trusted base: numpy reconstruction and distance "
+         "in harness/c18.py, TLC.")),
  "C14": dict(engine="Nvecs", design="3/C14",
    text=("Nvecs.tla (extending the exact class of Hosvd.tla): for tensors with diagonal integer Gram matrices rotated in "
          "mode n by a rational orthogonal matrix (identity, signed permutation, 3-4-5 rotation), the r leading mode-n "
